@@ -69,6 +69,10 @@ def reps_nd(points, rng):
             "colslice": wide[:, 1:1 + d], "nested": [list(map(float, p)) for p in points]}
 
 
+class _ListSub(list):
+    """a user's own list type"""
+
+
 def reps_collection(series, rng):
     """series: list of lists of floats (1-D)"""
     out = {"list_nd": [np.array(s, dtype=float) for s in series], "tuple_nd": tuple(np.array(s, dtype=float) for s in series),
@@ -79,6 +83,8 @@ def reps_collection(series, rng):
            "list_array_f": [array.array("f", s) for s in series]}
     if all(float(v).is_integer() for s in series for v in s):
         out["list_int"] = [np.array(s, dtype=np.int64) for s in series]
+        out["listsubclass_int"] = _ListSub(np.array(s, dtype=np.int64) for s in series)
+    out["listsubclass_strided"] = _ListSub(reps_1d(s, rng)["strided"] for s in series)
     if len({len(s) for s in series}) == 1:
         m = np.array(series, dtype=float)
         big = np.zeros((2 * m.shape[0], m.shape[1]))
@@ -333,6 +339,9 @@ def run(ctx):
         evaluate("subsequence_alignment", lambda a, b: subsequence_alignment(a, b).matching_function(), sq, False)
         sopts = dict(kwn)
         sargs = {k: (r1["nd"], v) for k, v in cols.items() if k in ("list_nd", "list_strided", "list_array")}
+        # the query in other containers
+        for qk in ("array", "tuple", "list", "strided"):
+            sargs["query_" + qk] = (r1[qk], cols["list_nd"])
         evaluate("subsequence_search", lambda qv, s: [(m.idx, m.distance) for m in
                                                       subsequence_search(qv, s, dists_options=sopts).kbest_matches(2)],
                  sargs, False, canonical="list_nd", shared=sopts)
